@@ -370,6 +370,15 @@ def crafted(tier):
             add(tlv(0, num, False, fill(n)))
             add(tlv(0, num, False, (b'plain text, ' * 4)[:n]))
             add(tlv(2, num, False, (b'plain text, ' * 4)[:n]))
+    # F: output lines around the tools' 8 KiB line buffers: a primitive of n octets prints as one line of indent + header + 6n + 5
+    # characters; n, nesting depth and tag are varied so that every residue of the line length around 8191/8192 occurs
+    for depth in range(0, 6):
+        for cls, num in ((0, 4), (2, 1), (2, 10), (1, 100)):
+            for n in range(1330, 1380):
+                doc = tlv(cls, num, False, fill(n)) + tlv(0, 2, False, b'\x05') + tlv(0, 16, True, tlv(0, 1, False, b'\xff'))
+                for _ in range(depth):
+                    doc = tlv(0, 16, True, doc)
+                add(doc)
     many = b''.join(tlv(2, i % 31, False, fill(i % 5)) for i in range(300))
     add(tlv(0, 16, True, many))
     add(tlv(0, 16, True, many, 'indef'))
